@@ -15,6 +15,8 @@ class NetworkDown(OSError):
 
 def _urlopen(uri, *a, **k):
     CALLS.append(("urlopen", uri))
+    if isinstance(uri, str) and uri.startswith("file:"):
+        return _REAL[0](uri, *a, **k)       # local files only (CLI --base-uri scenarios)
     raise NetworkDown("network is stubbed out: %s" % (uri,))
 
 
@@ -23,8 +25,14 @@ def _get(uri, *a, **k):
     raise NetworkDown("network is stubbed out: %s" % (uri,))
 
 
+_REAL = []
+
+
 def install():
     import jsonschema.validators as v
+    if not _REAL:
+        from urllib.request import urlopen
+        _REAL.append(urlopen)
     v.urlopen = _urlopen
     mod = types.ModuleType("requests")
     mod.get = _get
